@@ -10,6 +10,7 @@ import (
 	"fmt"
 	"os"
 	"strings"
+	"time"
 
 	"github.com/tsawler/tabula"
 	"github.com/tsawler/tabula/text"
@@ -24,8 +25,10 @@ func main() { harness.Main("C09", "exploration", run) }
 func run(e *harness.Env) {
 	defer cleanupScratch()
 	maxK, bound := 2, 2
+	e.SetBudget(55 * time.Second) // internal cap: a machine too loaded to finish in time yields exhaustive:false, never an alarm
 	if e.Thorough() {
 		maxK, bound = 4, 3
+		e.SetBudget(14 * time.Minute)
 	}
 	e.Rule = "grid grammar: full product of K columns (1..2 quick, 1..4 thorough) x R rows (1,2,3,4,8) x W words per line (1..3) x API, and on top of each grid every " +
 		"combination of at most 2 (quick) / 3 (thorough) deviations among: justified, heading (first/last column), short last line, single-word line, overhanging word (near/far), " +
@@ -105,6 +108,7 @@ func evaluate(e *harness.Env, c *harness.Ctx, a api, p *pageSpec) {
 		c.Fail(sig, det, files)
 		return
 	}
+	v.part = a.part
 	vd := judge(items, v, a.family, a.aspect)
 	if !vd.ok {
 		debugLog(a.name, vd.sig, desc)
